@@ -31,6 +31,7 @@ func init() {
 type c14Closer struct {
 	idx      int
 	calls    int
+	done     int // invocations that have returned
 	finished bool
 	fail     bool
 	steps    int
@@ -48,6 +49,7 @@ func (c *c14Closer) Close() error {
 		vsync.WaitUntil(c.othersInvoked)
 	}
 	c.finished = true
+	c.done++
 	if c.fail {
 		return errClose
 	}
@@ -69,7 +71,7 @@ func (c *c14Closer) othersInvoked() bool {
 //go:norace
 func c14Reset(cs []*c14Closer) {
 	for _, c := range cs {
-		c.calls, c.finished = 0, false
+		c.calls, c.finished, c.done = 0, false, 0
 	}
 }
 
@@ -79,7 +81,7 @@ func c14Reset(cs []*c14Closer) {
 func c14Snapshot(cs []*c14Closer) (calls []int, finished []bool) {
 	for _, c := range cs {
 		calls = append(calls, c.calls)
-		finished = append(finished, c.finished)
+		finished = append(finished, c.finished && c.done == c.calls) // every invocation so far has returned
 	}
 	return
 }
@@ -93,6 +95,7 @@ type c14Case struct {
 	Both   bool  `json:"closers_are_runners_too,omitempty"`             // wired closers also implement ApplicationRunner
 	AppDep int   `json:"closers_depend_on_app,omitempty"`               // wired closers hold the App itself: 1 directly, 2 through another component
 	Late   bool  `json:"named_after_the_app,omitempty"`                 // their names sort after the App's own component name (created after it)
+	Second int   `json:"second_close,omitempty"`                        // 1: App.Close is called again after it returned, 2: a second App.Close overlaps the first
 	Claim  bool  `json:"user_scanner_claims_the_apps_fields,omitempty"` // a user tag scanner declares the App's closer / runner slices as wire points too
 	Zero   int   `json:"zero_size_closers,omitempty"`                   // mask: stateless closers of field-less types (one shared address)
 	Bound  int   `json:"preemption_bound"`
@@ -150,6 +153,17 @@ func c14Gen(c *core.Ctx) func(yield func(c14Case) bool) {
 						if !yield(c14Case{N: n, Fail: 0, Steps: 0, Slow: -1, Wired: true, Both: both, AppDep: dep, Late: late, Bound: bound}) {
 							return
 						}
+					}
+				}
+			}
+		}
+		// App.Close called twice (one after the other; overlapping): each call reaches every closer
+		// once and waits for the calls it made
+		for n := 1; n <= 2; n++ {
+			for second := 1; second <= 2; second++ {
+				for fail := 0; fail < 1<<n; fail++ {
+					if !yield(c14Case{N: n, Fail: fail, Steps: 0, Slow: -1, Second: second, Bound: 3 - second}) {
+						return
 					}
 				}
 			}
@@ -253,7 +267,22 @@ func c14Run(c *core.Ctx) {
 			syslog.ResetForVerif(syslog.LvTrace) // every execution starts with cold logger state
 			c14Reset(closers)
 			c14ZReset()
-			a.Close()
+			switch cs.Second {
+			case 1:
+				a.Close()
+				a.Close()
+			case 2:
+				var both vsync.WaitGroup
+				both.Add(1)
+				vsync.Go(func() {
+					defer both.Done()
+					a.Close()
+				})
+				a.Close()
+				both.Wait()
+			default:
+				a.Close()
+			}
 			calls, finished = c14Snapshot(closers)
 			zlog = c14ZSnapshot()
 		}
@@ -263,7 +292,7 @@ func c14Run(c *core.Ctx) {
 			cc := cs
 			cc.Script = e.Script
 			key := func(kind string) string {
-				return "C14/" + kind + "/" + core.Hash(cs.N, cs.Fail, cs.Steps, cs.Slow, cs.Wired, cs.AppDep, cs.Late, cs.Claim)
+				return "C14/" + kind + "/" + core.Hash(cs.N, cs.Fail, cs.Steps, cs.Slow, cs.Wired, cs.AppDep, cs.Late, cs.Claim, cs.Second)
 			}
 			switch {
 			case e.Deadlock:
@@ -275,10 +304,14 @@ func c14Run(c *core.Ctx) {
 				c.Report(key("panic"), "panic", fmt.Sprintf("panic in a closing goroutine: %v", e.ChildPanics), cc)
 				return
 			}
+			wantCalls := 1
+			if cs.Second != 0 {
+				wantCalls = 2
+			}
 			for i := range calls {
-				if calls[i] != 1 {
+				if calls[i] != wantCalls {
 					c.Outcome("not-once")
-					c.Report(key("count"), "not-exactly-once", fmt.Sprintf("%d closers (failing mask %b, slow %d), schedule %v: closer %d was invoked %d times when Close returned", cs.N, cs.Fail, cs.Slow, e.Script, i, calls[i]), cc)
+					c.Report(key("count"), "not-exactly-once", fmt.Sprintf("%d closers (failing mask %b, slow %d), schedule %v: closer %d was invoked %d times when Close returned (App.Close calls: %d)", cs.N, cs.Fail, cs.Slow, e.Script, i, calls[i], wantCalls), cc)
 					return
 				}
 				if !finished[i] {
